@@ -38,6 +38,7 @@ import (
 
 var out = bufio.NewWriterSize(os.Stdout, 1<<20)
 var seed int64 = 1
+var coldStep = 1
 
 type geom struct {
 	be   bool
@@ -84,10 +85,14 @@ func dataOf(u uint64) can.Data {
 	return d
 }
 
+// zero, ones, 64 one-hot, one-cold (every coldStep-th bit), seeded random
 func payloadBasis(rng *rand.Rand, nrand int) []can.Data {
 	ps := []can.Data{dataOf(0), dataOf(^uint64(0))}
 	for i := 0; i < 64; i++ {
-		ps = append(ps, dataOf(1<<uint(i)), dataOf(^(uint64(1) << uint(i))))
+		ps = append(ps, dataOf(1<<uint(i)))
+		if i%coldStep == 0 {
+			ps = append(ps, dataOf(^(uint64(1) << uint(i))))
+		}
 	}
 	for i := 0; i < nrand; i++ {
 		ps = append(ps, dataOf(rng.Uint64()))
@@ -644,6 +649,7 @@ func main() {
 	}
 	switch os.Args[1] {
 	case "c08":
+		coldStep = arg(4, 1)
 		c08(arg(3, 2))
 	case "c09":
 		c09(arg(3, 5), arg(4, 8), arg(5, 8), arg(6, 20), arg(7, 10), arg(8, 0) != 0)
